@@ -874,6 +874,18 @@ func (st *fstate) call(ins ssa.Instruction, cc *ssa.CallCommon, res ssa.Value) {
 	} else if cc.IsInvoke() {
 		name = "(" + cc.Value.Type().String() + ")." + cc.Method.Name()
 	}
+	// a package-level object handed to an external callee (e.g. the receiver of (*sync.Map).Load) is read
+	for _, a := range args {
+		for r := range st.get(a) {
+			if r.k == rGlobal {
+				g := r.v.(*ssa.Global)
+				if _, ok := st.globRead[g]; !ok {
+					st.globRead[g] = pos
+					st.changed = true
+				}
+			}
+		}
+	}
 	if idx, ok := extMutators[name]; ok {
 		for _, i := range idx {
 			if i < len(args) {
